@@ -30,6 +30,7 @@ type bsess struct {
 	b        *broker
 	name     string // gateway session name (peer#epoch)
 	conn     *simrt.Conn
+	resetByBroker bool
 	parser   refmqtt.Parser
 	connected bool
 	accepted  bool
@@ -72,6 +73,10 @@ func (b *broker) accept(sess string) net.Conn {
 	b.order = append(b.order, sess)
 	s.mu.Unlock()
 	s.W.Log("mq:"+sess, "dial-ok", nil, "", 0)
+	if b.plan.ReadsOnly > 0 {
+		s.fault("broker-backpressure")
+		c.SetWriteLimit(b.plan.ReadsOnly)
+	}
 	if b.plan.NoConnectMs > 0 {
 		s.W.After(time.Duration(b.plan.NoConnectMs)*time.Millisecond, "noconnect:"+sess, func() {
 			if !bs.connected && !bs.closedByGw && !bs.closedByBroker {
@@ -165,7 +170,8 @@ func (bs *bsess) sendRaw(raw []byte, desc string, typ int64) {
 	for j, sg := range segs {
 		sg := sg
 		w.At(at+time.Duration(j), fmt.Sprintf("mq:%s:b2g:%06d:%d", bs.name, i, j), func() {
-			if !bs.closedByBroker {
+			// (what was written before an orderly close still arrives, before the FIN; a reset discards it)
+			if !bs.resetByBroker {
 				bs.conn.Deliver(sg)
 			}
 		})
@@ -177,6 +183,9 @@ func (bs *bsess) close(kind string) {
 		return
 	}
 	bs.closedByBroker = true
+	if kind == "rst" {
+		bs.resetByBroker = true
+	}
 	s := bs.b.s
 	s.W.Log("broker:"+bs.name+">", "close", nil, kind, 0)
 	at := s.W.Now() + 100*time.Microsecond
